@@ -17,7 +17,15 @@ from ..core.loader import AnalysisError, short, own_nodes, norm, canon, function
 from ..core.report import where
 
 TECHNIQUE = 'interval analysis with guard refinement over a hand-built CFG; dominance rules for failure containment and post-condition asserts'
-LEVEL_TEXT = 'Decides that every SWAPk/DUPk the greedy module can emit is bounded to 1..16 by dominating guards (sites it cannot prove are listed as triaged-unproven and guarded against growth), that a failed search can never be reported as success, and that the run-time post-condition asserts dominate the success return. Of "respects every declared ordering constraint" it decides the scheduler core: sort_with_deps is evaluated on every reduced dependence relation over up to two loads and three stores (C04.h), extremes over dependences are taken over all of them, deferred loads are released only when no store is pending, swapped operands need the commutative flag. Does not decide that the asserts are sufficient for realization in general.'
+LEVEL_TEXT = ('Decides that every SWAPk/DUPk the greedy module can emit is bounded to 1..16 by dominating guards (sites it '
+              'cannot prove are listed as triaged-unproven and guarded against growth), that a failed search can never be '
+              'reported as success, and that the run-time post-condition asserts dominate the success return. Of "respects '
+              'every declared ordering constraint" it decides the scheduler core: sort_with_deps is evaluated on every '
+              'reduced dependence relation over up to two loads and three stores (C04.h), extremes over dependences are '
+              'taken over all of them, deferred loads are released only when no store is pending, swapped operands need the '
+              'commutative flag; the merge of the memory and the storage schedule keeps both orders for accesses that '
+              'belong to both and for final loads (C04.j, evaluated on every pair of small orders); every store selection '
+              'takes byte stores (C04.i). Does not decide that the asserts are sufficient for realization in general.')
 
 EXPLANATION = ("Interval analysis with guard refinement of every expression that builds a SWAPk/DUPk mnemonic in "
                "greedy/block_generation.py (an assert counts as a guard because AssertionError is turned into "
@@ -25,9 +33,9 @@ EXPLANATION = ("Interval analysis with guard refinement of every expression that
                "statement that can raise, result used only under error==0) and for the run-time post-condition "
                "asserts (final stack equality dominates the return of SMSgreedy.compute; operand-position asserts "
                "dominate the emission of each operation).")
-NOT_DECIDED = ("'every store exactly once' and 'respects every dependency' beyond the relation family of C04.h and outside sort_with_deps "
-               "(merge of the memory and storage orders, interleaving with the stack computation); the asserts are checked to be present "
-               "and dominating, not to be sufficient")
+NOT_DECIDED = ("'every store exactly once' and 'respects every dependency' beyond the families of C04.h / C04.j "
+               '(interleaving of the schedule with the stack computation); the asserts are checked to be present and '
+               'dominating, not to be sufficient')
 ASSUMPTIONS = ["AssertionError raised inside SMSgreedy methods propagates to greedy_from_json's handler "
                "(no intermediate handler swallows it: checked)"]
 
@@ -732,6 +740,41 @@ def rule_j(ctx, out):
                 out.bad(f"merge:order-not-kept:{kind}", f"merge({mo}, {so}, final loads {mfin} / {sfin}) = {res}: {a} must come before {b} "
                         f"({'it precedes it in one of the two orders' if kind != 'final-load' else 'a final load follows every store of its location'}) but is placed after it",
                         where(f), {"memory_order": mo, "storage_order": so, "final_loads": [mfin, sfin], "merged": res, "violated": [list(x) for x in broken]})
+    # a memory store whose value needs two storage reads that have a storage write between them: it goes after the later read, and
+    # the storage order stays as it is (a scan that stops at the first read it finds places the store, and with it the later read,
+    # before that write)
+    recs = [rec("SLOAD_0", ["a"], ["x"]), rec("SLOAD_1", ["a2"], ["x2"]), rec("ADD_0", ["x", "x2"], ["z"]), rec("SSTORE_0", ["k", "v"], []),
+            rec("SSTORE_1", ["k1", "v1"], []), rec("SSTORE_2", ["k2", "v2"], []), rec("MSTORE_0", ["m", "z"], []), rec("MLOAD_0", ["b"], ["y"])]
+    opid = {r["id"]: r for r in recs}
+    var = {r["outpt_sk"][0]: r for r in recs if r["outpt_sk"]}
+    for so in (["SSTORE_0", "SLOAD_0", "SSTORE_1", "SLOAD_1", "SSTORE_2"], ["SLOAD_0", "SSTORE_1", "SLOAD_1", "SSTORE_2"], ["SLOAD_0", "SSTORE_1", "SLOAD_1"],
+               ["SSTORE_0", "SLOAD_0", "SLOAD_1", "SSTORE_2"]):
+        for mo in (["MSTORE_0"], ["MLOAD_0", "MSTORE_0"]):
+            try:
+                res = mi.call(f, list(mo), list(so), [], [], opid, var)
+            except Raised as e:
+                out.bad("merge:raises", f"merge raises {e.what} on the memory order {mo} and the storage order {so}", where(f))
+                continue
+            except Unsupported as e:
+                raise AnalysisError(f"merge: cannot evaluate abstractly: {e}")
+            n += 1
+            first = []
+            for x_ in res:
+                if x_ not in first:
+                    first.append(x_)
+            need = {(a, b) for i_, a in enumerate(so) for b in so[i_ + 1:] if "SSTORE" in a or "SSTORE" in b}
+            need |= {(a, b) for i_, a in enumerate(mo) for b in mo[i_ + 1:]}
+            need |= {(ld, "MSTORE_0") for ld in ("SLOAD_0", "SLOAD_1") if ld in so}
+            broken = sorted((a, b) for (a, b) in need if a in first and b in first and first.index(a) > first.index(b))
+            lost = sorted((set(mo) | set(so)) - set(first))
+            if not broken and not lost:
+                out.ok()
+            elif lost:
+                out.bad("merge:access-lost", f"merge({mo}, {so}) = {res}: {lost} are in none of the positions", where(f))
+            else:
+                a, b = broken[0]
+                out.bad("merge:order-not-kept:store-needing-two-reads", f"merge({mo}, {so}) = {res} where MSTORE_0 stores ADD(SLOAD_0, SLOAD_1): {a} must come before {b} "
+                        f"but is placed after it", where(f), {"memory_order": mo, "storage_order": so, "merged": res, "violated": [list(x_) for x_ in broken]})
     out.samples.append({"order_pairs_evaluated": n})
     if n < 30:
         raise AnalysisError(f"only {n} pairs of orders evaluated")
